@@ -47,6 +47,9 @@ const buildRule = "seeded universes (1-3 packages, 2-7 targets: explicit/glob in
 const faultRule = " Fault runs (mode=faults): per-run budget of 1-3 faults drawn from a per-run subset of {fs-error-read, fs-error-write (ENOSPC), fs-error-stat, short-write, read-error, crash at the k-th file-system operation of a build (incl. inside a copy: a strict prefix is written), SIGINT at a drawn scheduler step, removal of a cache entry between builds}; injected only on cache paths, biased towards blob reads / renames in half of the runs. Oracle relaxed narrowly: a faulted invocation may fail or re-execute, never hang, crash, report success with wrong bytes or leave a corrupt cache."
 
 var plans = map[string]Plan{
+	"C15": {Jobs: []Job{{World: "wbuild", Params: "mode=twin,max_targets=5", Share: 0.6}, {World: "wbuild", Params: "mode=faults,load=minimal,max_targets=5", Share: 0.4}}, Level: "exploration",
+		Rule: buildRule + faultRule + " C15: twin worlds - the same universe and history run in lock-step on machine A (load_outputs=all) and machine B (minimal), separate caches and workspaces, independent schedules: same exit status, same multiset of executed commands, every materialised output of a selected target equal; in both worlds every executed command must find its direct dependencies' outputs (also through aliases) present and current; second job: minimal mode under cache faults.",
+		Real: realBuild, Stub: stubBuild, Assume: append([]string{"twin runs exclude features that make the two worlds legitimately diverge: commands changing the shared external state (checks), external failures, cache-disabled builds, fail-fast"}, buildAssume...), QuickS: 45, ThoroughS: 1200},
 	"C07": {Jobs: []Job{{World: "wbuild", Params: "mode=faults,focus=crash,max_targets=5", Share: 0.8}, {World: "wbuild", Params: "max_targets=5", Share: 0.2}}, Level: "fault_enumeration",
 		Rule: buildRule + faultRule + " C07: after EVERY invocation (also killed ones) an offline audit of the cache directory: every cas/<d> (not tmp-*) hashes to d, every target/<k> decodes and every blob it references (through trees) is present; the follow-up builds must satisfy C01.",
 		Real: realBuild, Stub: stubBuild, Assume: append([]string{"crash model is process death with the page cache intact (kill -9): every completed file-system operation survives; loss of un-fsynced data on power failure is outside the statement and not injected", "a crash also kills the running target shells"}, buildAssume...), QuickS: 45, ThoroughS: 1200},
@@ -55,7 +58,7 @@ var plans = map[string]Plan{
 		Real: realBuild, Stub: append([]string{"that a real sh and its children die on kill (the simulated command dies at once)"}, stubBuild...), Assume: buildAssume, QuickS: 45, ThoroughS: 1200},
 	"C01": {Jobs: []Job{{World: "wbuild", Params: "max_targets=6", Share: 0.7}, {World: "wbuild", Params: "mode=faults,max_targets=5", Share: 0.3}}, Level: "exploration", Rule: buildRule + faultRule + " C01: after every build that exits 0 every declared output of every selected target equals the model's clean build; a target that must execute for lack of a result for its current state did execute.",
 		Real: realBuild, Stub: stubBuild, Assume: buildAssume, QuickS: 45, ThoroughS: 1200},
-	"C02": {Jobs: []Job{{World: "wbuild", Params: "max_targets=6", Share: 1}}, Level: "exploration", Rule: buildRule + " C02: the set of commands executed by each build is compared with MUST-NOT (cached result for the current state, nothing forcing execution), incl. no-op rebuild, early cut-off (projected commands) and damaged output paths.",
+	"C02": {Jobs: []Job{{World: "wbuild", Params: "max_targets=6", Share: 0.7}, {World: "wbuild", Params: "load=minimal,max_targets=6", Share: 0.3}}, Level: "exploration", Rule: buildRule + " C02: the set of commands executed by each build is compared with MUST-NOT (cached result for the current state, nothing forcing execution), incl. no-op rebuild, early cut-off (projected commands) and damaged output paths.",
 		Real: realBuild, Stub: stubBuild, Assume: buildAssume, QuickS: 45, ThoroughS: 1200},
 	"C06": {Jobs: []Job{{World: "wbuild", Params: "max_targets=6", Share: 1}}, Level: "exploration", Rule: buildRule + " C06: a restored (not executed) target's recursive listing (type, exec bit, content, link target, nothing extra) equals the clean build, from destination states absent / parent absent / modified / truncated / stale extra entries / file where a directory should be.",
 		Real: realBuild, Stub: stubBuild, Assume: buildAssume, QuickS: 45, ThoroughS: 1200},
@@ -66,7 +69,7 @@ var plans = map[string]Plan{
 	"C14": {Jobs: []Job{{World: "wbuild", Params: "max_targets=6", Share: 1}}, Level: "exploration", Rule: buildRule + " C14: targets that exit non-zero, time out on the fake clock, omit a declared output or fail an output check are never reported successful; a failing check forces execution although a cached result exists.",
 		Real: realBuild, Stub: stubBuild, Assume: buildAssume, QuickS: 45, ThoroughS: 1200},
 	"C03": {
-		Jobs:  []Job{{World: "wdag", Params: "max_n=400", Share: 0.5}, {World: "wbuild", Params: "max_targets=6", Share: 0.5}},
+		Jobs:  []Job{{World: "wdag", Params: "max_n=400", Share: 0.4}, {World: "wbuild", Params: "max_targets=6", Share: 0.3}, {World: "wbuild", Params: "load=minimal,max_targets=6", Share: 0.1}, {World: "wbuild", Params: "mode=faults,load=minimal,max_targets=5", Share: 0.2}},
 		Level: "exploration",
 		Rule: "seeded random graphs (chain/tree/layers/diamond/random DAG, 1..400 nodes quick, ..3000 thorough), selections closed under dependencies, num_workers 1..8, latencies incl. zero and ties, failure subsets, fail-fast on/off; each run = one seeded schedule of the real walker + worker pool. " +
 			"Checked at every start event: all direct dependencies finished successfully, no second start, running <= num_workers. non-trivial = >=2 callbacks started, >=1 edge and >=1 context switch; distinct = distinct (workload shape hash, schedule trace hash)",
